@@ -77,9 +77,23 @@ GTick ==
 
 GClose == \E how \in {"eof", "err"} : Close /\ Rec("close", 0, how) /\ Same
 
+\* Deliver . Close as one step: a response carrying r's ID and the end of the stream become readable
+\* together, the multiplexer sees both in one poll (a server that answers one of several pipelined
+\* requests and closes).  The composition of Mux!DeliverFirst / DeliverDup / DeliverUnknown(stale)
+\* with Mux!Close, written out because TLC has no action composition.
+GDeliverClose ==
+    \E r \in HasWire, how \in {"eof", "err"} :
+        /\ conn = "open" /\ ntag < MaxTag
+        /\ ntag' = ntag + 1 /\ rid' = Append(rid, wire[r])
+        /\ inbox' = IF r \in Pending THEN [inbox EXCEPT ![r] = Append(@, ntag + 1)] ELSE inbox
+        /\ conn' = "closed"
+        /\ phase' = [q \in Reqs |-> IF q \in Pending THEN "failed" ELSE phase[q]]
+        /\ last' = Quiet /\ UNCHANGED wire
+        /\ Rec("deliverclose", r, how) /\ Same
+
 Finished == conn = "closed" \/ Len(log) = MaxSteps
 
-GNext == ~Finished /\ (GSend \/ GDeliver \/ GUnknown \/ GGarbage \/ GCancel \/ GTick \/ GClose)
+GNext == ~Finished /\ (GSend \/ GDeliver \/ GUnknown \/ GGarbage \/ GCancel \/ GTick \/ GClose \/ GDeliverClose)
 GSpec == GInit /\ [][GNext]_gvars
 
 Case == [n |-> N, cap |-> Cap, to |-> TO, log |-> log, exp |-> exp]
